@@ -12,6 +12,8 @@ use std::panic::{catch_unwind, AssertUnwindSafe};
 pub struct Tp {
     pub p: TokenParser,
     pub panicked: bool,
+    /// the last failing call was consume (whose generic failure is labelled ParserTooComplex by the library)
+    pub last_fail_consume: bool,
 }
 
 #[derive(Debug, Clone, PartialEq)]
@@ -24,7 +26,7 @@ impl Tp {
     pub fn new(f: &ParserFactory, g: &GCase) -> Result<Tp> {
         let mut p = f.create_parser(g.top()?)?;
         p.start_without_prompt();
-        Ok(Tp { p, panicked: false })
+        Ok(Tp { p, panicked: false, last_fail_consume: false })
     }
     pub fn stop_reason(&self) -> StopReason {
         self.p.stop_reason()
@@ -32,13 +34,29 @@ impl Tp {
     pub fn stopped(&self) -> bool {
         self.panicked || self.p.stop_reason() != StopReason::NotStopped
     }
+    /// documented resource-limit stop. `TokenParser::apply_token` labels EVERY failing commit (also a token
+    /// the grammar simply rejects) ParserTooComplex, so after a failing consume only the parser-level
+    /// error (item limit, lexer fuel / state limit) counts.
     pub fn is_resource_stop(&self) -> bool {
-        matches!(self.p.stop_reason(), StopReason::LexerTooComplex | StopReason::ParserTooComplex | StopReason::MaxTokensTotal | StopReason::MaxTokensParser)
+        if self.panicked {
+            return false;
+        }
+        if std::panic::catch_unwind(AssertUnwindSafe(|| self.p.parser.get_error().is_some())).unwrap_or(false) {
+            return true;
+        }
+        match self.p.stop_reason() {
+            StopReason::MaxTokensTotal | StopReason::MaxTokensParser => true,
+            StopReason::LexerTooComplex | StopReason::ParserTooComplex => !self.last_fail_consume,
+            _ => false,
+        }
     }
     pub fn mask(&mut self) -> Result<SimpleVob, MaskErr> {
         match catch_unwind(AssertUnwindSafe(|| self.p.compute_mask())) {
             Ok(Ok(m)) => Ok(m),
-            Ok(Err(_)) => Err(MaskErr::Stop(self.p.stop_reason())),
+            Ok(Err(_)) => {
+                self.last_fail_consume = false;
+                Err(MaskErr::Stop(self.p.stop_reason()))
+            }
             Err(_) => {
                 self.panicked = true;
                 Err(MaskErr::Panic)
@@ -58,11 +76,36 @@ impl Tp {
             ok
         }));
         match r {
-            Ok(b) => b,
+            Ok(b) => {
+                if !b {
+                    self.last_fail_consume = true;
+                }
+                b
+            }
             Err(_) => {
                 self.panicked = true;
                 false
             }
         }
     }
+}
+
+/// A masked token refused by commit: the library labels every failing commit ParserTooComplex, and the row-size
+/// limit is raised on exactly that path without any other trace. Decided on API values: the same history and
+/// token on an engine with all limits relaxed -- if that engine takes the token, the refusal was the limit.
+pub fn accepted_with_relaxed_limits(v: &crate::vocab::Vocab, slices: Option<Vec<String>>, g: &GCase, hist: &[u32], t: u32) -> bool {
+    use llguidance::api::ParserLimits;
+    let big = ParserLimits { max_items_in_row: 1 << 22, initial_lexer_fuel: u64::MAX / 4, step_lexer_fuel: u64::MAX / 4, step_max_items: 1 << 26, max_lexer_states: 1 << 22, max_grammar_size: 1 << 24, precompute_large_lexemes: false, verbose_errors: false };
+    let fo = crate::engine::FactoryOpts { slices, ff_tokens: false, limits: Some(big) };
+    catch_unwind(AssertUnwindSafe(|| {
+        let Ok(f) = crate::engine::factory(v, &fo) else { return false };
+        let Ok(mut tp) = Tp::new(&f, g) else { return false };
+        for &h in hist {
+            if !tp.consume(h) {
+                return false;
+            }
+        }
+        tp.consume(t)
+    }))
+    .unwrap_or(false)
 }
